@@ -59,7 +59,7 @@ def _params(full):
             kept.append(p)
         else:
             cheap = (p["optdims"] is not None) or kind == "sumtensor"
-            if sh == (2, 2) and kind != "sparse":
+            if sh == (2, 2) and kind != "sparse" and p["init"] != "random":
                 p["_tier"] = "quick" if cheap and not (p["optdims"] is None and kind != "sumtensor") else "thorough"
                 kept.append(p)
             elif sh == (2, 3) and (kind == "sumtensor" or p["optdims"] == [1]):
